@@ -28,6 +28,9 @@ pub enum XferOp {
     Dup { pick: i32 },
     /// the client starts over (`DeltaReceiver::reset`, e.g. map change): from here on it must behave like a new receiver
     Reset,
+    /// retransmission storm: the sender repeats every part of the latest tick `times` more times, except
+    /// that part number `missing` keeps getting lost (so the transfer stays incomplete while duplicates pile up)
+    Storm { times: u8, missing: u8 },
 }
 
 struct Transfer {
@@ -96,6 +99,7 @@ impl Engine for XferEngine {
         };
         let len_profile = c.below(5);
         let resets = c.chance(1, 5);
+        let storm = c.chance(1, 8);
         let mut ops = Vec::new();
         let mut tick = first_tick as i64;
         for t in 0..n_ticks {
@@ -128,7 +132,12 @@ impl Engine for XferEngine {
             .min(28800);
             ops.push(XferOp::NewTick { inc, base, len, salt: s.next_u64() as u32 });
             // deliver (some of) what is in flight; with `interleave` parts of the previous tick stay behind
-            let parts = ((len as usize + 899) / 900).max(1);
+            let mut parts = ((len as usize + 899) / 900).max(1);
+            if storm && parts >= 2 && s.chance(1, 2) {
+                let times = s.range(1, 5) as u8;
+                ops.push(XferOp::Storm { times, missing: s.below(64) as u8 });
+                parts *= 1 + times as usize;
+            }
             let deliveries = if interleave && t + 1 < n_ticks && s.chance(1, 2) { s.usize_below(parts + 1) } else { parts + s.usize_below(3) };
             for _ in 0..deliveries {
                 if resets && s.chance(1, 25) {
@@ -223,6 +232,27 @@ impl Engine for XferEngine {
                         _ => "probe_transfer_5plus_parts",
                     });
                     transfers.push(Transfer { tick: t, base, crc, data, num_parts: n, completed: 0 });
+                }
+                XferOp::Storm { times, missing } => {
+                    ctx.t(6);
+                    if let Some(idx) = transfers.len().checked_sub(1) {
+                        let np = transfers[idx].num_parts;
+                        let miss = missing as usize % np.max(1);
+                        let originals: Vec<InFlight> = wire.iter().filter(|m| m.transfer == idx && m.part != miss).map(|m| InFlight { transfer: m.transfer, part: m.part, kind: m.kind, bytes: m.bytes.clone() }).collect();
+                        if np >= 2 && !originals.is_empty() && wire.len() < 2000 {
+                            wire.retain(|m| !(m.transfer == idx && m.part == miss));
+                            for _ in 0..times.min(6) {
+                                for m in &originals {
+                                    wire.push(InFlight { transfer: m.transfer, part: m.part, kind: m.kind, bytes: m.bytes.clone() });
+                                    ctx.count("fault_duplication");
+                                }
+                            }
+                            ctx.count("fault_loss");
+                            ctx.count("probe_retransmission_storm");
+                            ctx.fault_inflight = true;
+                            ctx.logf(|| format!("storm: tick {} repeated {} times without part {}", transfers[idx].tick, times, miss));
+                        }
+                    }
                 }
                 XferOp::Reset => {
                     ctx.t(5);
